@@ -46,7 +46,7 @@ ASSUMPTIONS = ['bit flips inside complete JSON files are not injected (nothing i
 PROBES = ['restart_with_groups', 'restart_with_links', 'restart_with_joins', 'restart_by_reference', 'restart_relative_paths',
           'double_round_trip', 'second_generation_restart', 'fault_torn_write', 'fault_enospc', 'fault_open', 'fault_close',
           'fault_truncated_read', 'fault_missing_read', 'fault_empty_read', 'save_failed_loudly', 'metadata_unserialisable_filtered',
-          'datetime_component', 'categorical_component', 'multi_key_join', 'session_saved_in_another_directory', 'categorical_jitter', 'two_input_link_with_own_input', 'coordinates_set_later', 'coordinates_set_on_file_dataset']
+          'datetime_component', 'categorical_component', 'multi_key_join', 'session_saved_in_another_directory', 'categorical_jitter', 'two_input_link_with_own_input', 'coordinates_set_later', 'coordinates_set_on_file_dataset', 'function_with_borrowed_name']
 
 LEAFKINDS = ['ineq', 'range', 'mrange', 'roi', 'roix', 'mask', 'slice', 'elem', 'catroi', 'cat', 'cat2d', 'catmr', 'flood', 'roi3d',
              'roind', 'empty']
@@ -91,7 +91,7 @@ def generate(rng, cfg, guards):
         elif k in ('append', 'remove', 'remove_group', 'remove_link'):
             ops.append([k, r8()])
         elif k == 'add_derived':
-            ops.append([k, r8(), r8(), rng.pick(sorted(LF.ONE))])
+            ops.append([k, r8(), r8(), rng.pick(sorted(LF.ONE)), rng.chance(0.12)])
         elif k == 'add_link':
             ops.append([k, rng.wpick(LINKKINDS), r8(), r8(), r8(), r8(), rng.pick(sorted(LF.ONE)), r8(), rng.pick(sorted(LF.TWO)), rng.chance(0.4)])
         elif k == 'join':
@@ -383,7 +383,12 @@ def _execute(case, res, tmp, fs):
                 if d is not None:
                     src = w.pick_cid(d, op[2], True)
                     w.nv += 1
-                    d.add_component_link(ComponentLink([src], ComponentID('v%d_%d' % (w.generation, w.nv), parent=d), using=LF.ONE[op[3]][0]))
+                    fn = LF.ONE[op[3]][0]
+                    if len(op) > 4 and op[4] and op[3] in LF.NAMESAKES:
+                        # a function that cannot be named faithfully in a session file (the save has to fail loudly)
+                        fn = LF.NAMESAKES[op[3]]
+                        res.probe('function_with_borrowed_name')
+                    d.add_component_link(ComponentLink([src], ComponentID('v%d_%d' % (w.generation, w.nv), parent=d), using=fn))
             elif k == 'add_link':
                 _, kind, h1, c1, h2, c2, f1, c3, f2 = op[:9]
                 d1, d2 = w.pick_data(h1), w.pick_data(h2)
